@@ -3,6 +3,7 @@
 //!   nvh run <stream>                      read op lines on stdin, one canonical output line each
 mod rng;
 mod streams;
+mod tok;
 mod util;
 
 use std::io::{self, BufRead, Write};
